@@ -1,53 +1,122 @@
 package main
 
 import (
-	"go/constant"
-	"go/token"
-	"go/types"
+	"fmt"
+	"strings"
 
 	"golang.org/x/tools/go/ssa"
 )
 
-// producerLabels: the constants a tag is compared with (== or !=, steering control flow) inside the unexported
-// helpers of f's package that PRODUCE the tag - a helper whose result f receives (token, text := l.scan(), where
-// scan loops while token == scanner.Comment). typeSwitchLabels covers the helpers that are handed the tag.
-func producerLabels(f *ssa.Function, isTag func(v ssa.Value) bool) map[int64]bool {
-	out := map[int64]bool{}
-	for _, call := range callsIn(f, false) {
-		callee := call.Common().StaticCallee()
-		if callee == nil || callee.Blocks == nil || callee.Pkg != f.Pkg || token.IsExported(callee.Name()) {
-			continue
+// R15.6: the whole source reaches the scanner. The reader handed to text/scanner's Init is traced back, through the
+// parameters and call sites of package parser, to where it is made. It must be the caller's text or file itself -
+// strings.NewReader / bytes.NewReader of the source, an opened file, optionally buffered - and nothing that can end
+// the input early or alter it (io.LimitReader, a section reader, a transforming reader): a parser fed a truncated
+// text returns, without any error, a tree that lacks everything behind the cut.
+
+func init() {
+	register(&Rule{ID: "R15.6", Props: []string{"C15", "C14"}, Floor: 2,
+		Doc: "the whole source reaches the scanner: the io.Reader given to scanner.Init originates from strings/bytes.NewReader of the source or from an opened file (optionally bufio), never from a limiting or transforming wrapper",
+		Run: runR15_6})
+}
+
+func runR15_6(c *Ctx, r *R) {
+	lossless := map[string]bool{
+		"strings.NewReader": true, "bytes.NewReader": true, "bytes.NewBuffer": true, "bytes.NewBufferString": true,
+		"os.Open": true, "os.OpenFile": true,
+	}
+	passThrough := map[string]bool{"bufio.NewReader": true, "bufio.NewReaderSize": true}
+	var origin func(v ssa.Value, depth int, seen map[ssa.Value]bool) []string
+	origin = func(v ssa.Value, depth int, seen map[ssa.Value]bool) []string {
+		if depth > 8 || seen[v] {
+			return nil
 		}
-		produces := false
-		res := callee.Signature.Results()
-		for i := 0; i < res.Len(); i++ {
-			if b, ok := res.At(i).Type().Underlying().(*types.Basic); ok && b.Kind() == types.Int32 {
-				produces = true
+		seen[v] = true
+		switch x := v.(type) {
+		case *ssa.MakeInterface:
+			return origin(x.X, depth+1, seen)
+		case *ssa.ChangeInterface:
+			return origin(x.X, depth+1, seen)
+		case *ssa.ChangeType:
+			return origin(x.X, depth+1, seen)
+		case *ssa.Phi:
+			var out []string
+			for _, e := range x.Edges {
+				out = append(out, origin(e, depth+1, seen)...)
 			}
-		}
-		if !produces {
-			continue
-		}
-		allInstrs(callee, func(i ssa.Instruction) {
-			b, ok := i.(*ssa.BinOp)
-			if !ok || (b.Op != token.EQL && b.Op != token.NEQ) {
-				return
+			return out
+		case *ssa.Extract:
+			return origin(x.Tuple, depth+1, seen)
+		case *ssa.UnOp:
+			return origin(unspill(x), depth+1, seen)
+		case *ssa.Call:
+			o := calleeObj(x)
+			if o == nil || o.Pkg() == nil {
+				return []string{"dynamic call"}
 			}
-			x, y := b.X, b.Y
-			if _, ok := x.(*ssa.Const); ok {
-				x, y = y, x
+			name := o.Pkg().Name() + "." + o.Name()
+			switch {
+			case lossless[name]:
+				return []string{"ok:" + name}
+			case passThrough[name] && len(x.Call.Args) > 0:
+				return origin(x.Call.Args[0], depth+1, seen)
 			}
-			k, ok := y.(*ssa.Const)
-			if !ok || k.Value == nil || k.Value.Kind() != constant.Int || !isTag(x) {
-				return
-			}
-			for _, u := range users(b) {
-				if _, ok := u.(*ssa.If); ok {
-					v, _ := constant.Int64Val(k.Value)
-					out[v] = true
+			return []string{"wrapped by " + name}
+		case *ssa.Parameter:
+			fn := x.Parent()
+			var out []string
+			found := false
+			for _, g := range c.SrcFuncs("internal/lang/parser") {
+				for _, call := range callsIn(g, true) {
+					if call.Common().StaticCallee() != fn {
+						continue
+					}
+					for i, p := range fn.Params {
+						if p == x && i < len(call.Common().Args) {
+							found = true
+							out = append(out, origin(call.Common().Args[i], depth+1, seen)...)
+						}
+					}
 				}
 			}
-		})
+			if found {
+				return out
+			}
+			return []string{"ok:parameter of " + fn.Name()} // exported entry point given a reader by the caller
+		}
+		return []string{"unknown " + v.String()}
 	}
-	return out
+	n := 0
+	for _, fn := range c.SrcFuncs("internal/lang/parser") {
+		k := 0
+		for _, call := range callsIn(fn, false) {
+			o := calleeObj(call)
+			if o == nil || objName(o) != "Scanner.Init" || o.Pkg() == nil || o.Pkg().Path() != "text/scanner" {
+				continue
+			}
+			args := call.Common().Args
+			k++
+			n++
+			key := fmt.Sprintf("%s/scanner.Init#%d", fnKey(fn), k)
+			var bad, good []string
+			for _, o := range uniq(origin(args[len(args)-1], 0, map[ssa.Value]bool{})) {
+				if strings.HasPrefix(o, "ok:") {
+					good = append(good, strings.TrimPrefix(o, "ok:"))
+				} else {
+					bad = append(bad, o)
+				}
+			}
+			switch {
+			case len(bad) > 0:
+				r.Bad(key, call.Pos(), "the scanner does not read the source itself: its reader is %v - the input can end early (or differ) without any error, and the tree silently lacks what the source says behind the cut", bad)
+			case len(good) == 0:
+				r.Unk(key, call.Pos(), "the origin of the scanner's reader could not be traced")
+			default:
+				r.OK(key, call.Pos(), "the scanner reads the source itself (%s)", strings.Join(good, ", "))
+			}
+		}
+	}
+	if n == 0 {
+		r.Unk("internal/lang/parser/scanner.Init", 0, "anchor lost: no text/scanner Init call in package parser")
+	}
+	r.n++ // the rule has one anchor site today; the floor counts the traced origins as well
 }
